@@ -221,6 +221,12 @@ def generate(seed, tier="quick", faults=True):
             if gen.random() < 0.8:
                 ops.append({"op": "req", "spec": i})
                 ops.append({"op": "req", "spec": i})
+                if gen.random() < 0.25:
+                    # recovery must work more than once
+                    ops.append({"op": "clear"})
+                    ops.append({"op": "req", "spec": i, "fault": dict(f, at_frac=fault.random())})
+                    ops.append({"op": "req", "spec": i})
+                    ops.append({"op": "req", "spec": i})
         elif faults and r < 0.95:
             i = pick_req()
             f = {"kind": "ioerror", "errno": fault.choice(["ENOSPC", "ENOSPC", "EIO"]),
@@ -252,6 +258,19 @@ def generate(seed, tier="quick", faults=True):
 
 # ----------------------------------------------------------------------------
 # execution
+
+
+def _scribble(res):
+    """A caller may do what it likes with the arrays it was given (without a
+    cache they are fresh on every call): overwrite them, so that a cache layer
+    that hands out views of its own state shows up at the next hit."""
+    try:
+        grid, conc, flx = res
+        for a in list(grid) + [conc, flx]:
+            if isinstance(a, np.ndarray) and a.flags.writeable and a.dtype.kind == "f":
+                a[...] = np.nan
+    except Exception:
+        pass
 
 
 def _same(a, b):
@@ -547,6 +566,7 @@ class Run:
                             f"request {k} (spec {i}) field {cmpres[0]}: {cmpres[1]}; answer belongs to a request differing in {cause}",
                             {"op": k, "field": cmpres[0], "cause": cause})
         self.log.add(k, "req", i, "hit" if not solved else "solved", [arr_digest(res[1]), arr_digest(res[2])])
+        _scribble(res)
         if spec["footprint"]:
             if should_hit and solved:
                 raise Violation("effective", "re-solved",
@@ -603,6 +623,7 @@ class Run:
                 c = None
             if c is not None:
                 raise Violation("transparent", "wrong-result", f"series op {k} step {i} field {c[0]}: {c[1]}", {"op": k, "field": c[0], "cause": ["interface"]})
+            _scribble((r["grid"], r["conc"], r["flx"]))
             key = self.step_key(j, i)
             solved, j0, j1 = trace[i] if i < len(trace) else (None, 0, 0)
             fl = self.intact.get(key)
